@@ -301,6 +301,12 @@ func (ww *conversionVisitor) visitOneofNode(node *sourcewalk.OneofNode) {
 		}
 	}
 
+	if len(message.descriptor.Field) == 0 {
+		// proto has no empty oneof ('oneof must contain at least one
+		// field'), the message option alone marks the oneof.
+		message.descriptor.OneofDecl = nil
+	}
+
 	ww.parentContext.addMessage(message)
 }
 
